@@ -308,6 +308,7 @@ package component_definition
 //                   type is the struct field's type - the same record whatever the nesting depth
 //   FieldsInv(m)    every recorded field of m is FieldOK
 //@ ghost var ScanTarget *Meta
+//@ ghost field (Meta) Offered map[reflect.Value]map[int]bool
 //@ spec func Embeds(sf reflect.StructField) bool = sf.Anonymous && sf.Tag == "" && sf.Type.Kind() == 25
 //@ spec func FieldOK(m *Meta, f *Field) bool = f != nil && f.Base != nil && RCanSet(f.Value) && !Embeds(f.StructField) && f.Holder != nil && f.Holder.Meta == m && f.Type == f.StructField.Type && RTypeOf(f.Value) == f.Type
 //@ spec func FieldsInv(m *Meta) bool = m != nil && forall(k, int, implies(0 <= k && k < len(m.Fields), FieldOK(m, m.Fields[k])), m.Fields[k])
@@ -335,7 +336,8 @@ package component_definition
 //@ requires-at-creation [captured] m != nil && m == ScanTarget && holder != nil && holder.Meta == m
 //@ requires [scanning] ScanTarget == m && FieldsInv(m)
 //@ requires [field-descriptor] field.Type != nil && RTypeOf(value) == field.Type
-//@ assigns m.Fields
+//@ assigns m.Fields, m.Offered
+//@ ensures [offers-only-grow] forall(w, reflect.Value, forall(j, int, implies(old(m.Offered[w][j]), m.Offered[w][j]), m.Offered[w][j], old(m.Offered[w][j])))
 //@ ensures [fields-inv-kept] FieldsInv(m)
 //@ ensures [fields-only-grow] len(m.Fields) >= len(old(m.Fields)) && forall(k, int, implies(0 <= k && k < len(old(m.Fields)), m.Fields[k] == old(m.Fields[k])))
 //@ ensures [settable-leaf-recorded] implies(!Embeds(field) && RCanSet(value), len(m.Fields) == len(old(m.Fields)) + 1 && m.Fields[len(m.Fields) - 1].StructField == field && m.Fields[len(m.Fields) - 1].Value == value && m.Fields[len(m.Fields) - 1].Holder == holder)
@@ -346,7 +348,9 @@ package component_definition
 //@ property C11
 //@ requires [scanning] m != nil && ScanTarget == m && FieldsInv(m)
 //@ requires [holder-built] HolderOK(m, holder)
-//@ assigns m.Fields
+//@ assigns m.Fields, m.Offered
+//@ ensures [offers-only-grow] forall(w, reflect.Value, forall(j, int, implies(old(m.Offered[w][j]), m.Offered[w][j]), m.Offered[w][j], old(m.Offered[w][j])))
+//@ ensures [every-field-of-the-holder-offered] implies(ite(holder.Type.Kind() == 22, holder.Type.Elem(), holder.Type).Kind() == 25, forall(j, int, implies(0 <= j && j < RNumField(ite(holder.Type.Kind() == 22, holder.Type.Elem(), holder.Type)), m.Offered[ite(holder.Type.Kind() == 22, RElemVal(holder.Value), holder.Value)][j])))
 //@ ensures [fields-inv-kept] FieldsInv(m)
 //@ ensures [fields-only-grow] len(m.Fields) >= len(old(m.Fields)) && forall(k, int, implies(0 <= k && k < len(old(m.Fields)), m.Fields[k] == old(m.Fields[k])))
 
